@@ -502,6 +502,11 @@ int32_t jls_wr_fsr_data(struct jls_core_fsr_s * self, int64_t sample_id, const v
     if (0 == data_length) {
         return 0;
     }
+    if (sample_id > (INT64_MAX - (int64_t) data_length - (int64_t) self->parent->signal_def.samples_per_data)) {
+        // sample_id + data_length and the block timestamps (advanced by samples_per_data) must stay inside int64
+        JLS_LOGW("fsr %d: sample_id %" PRIi64 " too large", (int) self->parent->signal_def.signal_id, sample_id);
+        return JLS_ERROR_PARAMETER_INVALID;
+    }
 
     if (!self->data) {
         ROE(jls_core_fsr_sample_buffer_alloc(self));
@@ -523,11 +528,11 @@ int32_t jls_wr_fsr_data(struct jls_core_fsr_s * self, int64_t sample_id, const v
         data_length -= ffwd;
         return wr_data_inner(self, data, ((uint64_t) ffwd) * sample_size_bits, data_length);
     } else {
-        JLS_LOGW("fsr %d skip: in=%" PRIi64 " expect=%" PRIi64 ", skipped=%" PRIi64,
+        size_t skip = (size_t) (((uint64_t) sample_id) - ((uint64_t) sample_id_next));  // may exceed INT64_MAX
+        JLS_LOGW("fsr %d skip: in=%" PRIi64 " expect=%" PRIi64 ", skipped=%" PRIu64,
                  self->parent->signal_def.signal_id,
                  sample_id, sample_id_next,
-                 sample_id - sample_id_next);
-        size_t skip = (size_t) (sample_id - sample_id_next);
+                 (uint64_t) skip);
         size_t buf_sz = 0;
         if (self->parent->signal_def.data_type == JLS_DATATYPE_F32) {
             float * f32 = (float *) self->buffer_u64;
